@@ -41,7 +41,7 @@ func main() {
 		tieR:  res.Tie("resource-options", "K2", "ALL ordered lists up to the stated length of resource options (WithWritableFields mask/nil, WithWritablePaths, WithIDInterceptor f/nil, WithInitialValue v/nil, WithInitialRecord incl. the same id twice and two spellings of one id, WithEquivalence, EmptyOption) given to NewCollection / NewValue, followed by a fixed probe sequence (List, Get by both spellings, masked Update, Add, Delete / Get, Set, Get): model (fold of the list as computeConfig does) vs code, per call as above, and whether construction panics; distinct = distinct (option list, call)"),
 		tieP:  res.Tie("mask-paths", "K2", "ALL lists of path strings up to the stated length over an alphabet of real paths of OpenClosePosition (incl. the siblings open_percent / open_percent_tween, whose names are related by textual prefix, and paths one and two levels inside the latter) and of TestAllTypes (three levels), handed to a Value as read mask, update mask, reset mask and writable fields: the leaf fields acted on, code vs the string-level model of withoutNestedPaths/nestedMask; and every path of the alphabet as update path against every writable list up to length 2 (Validate), code vs isWritablePath of the model; distinct = distinct (type, site, list)"),
 		tieN:  res.Tie("nested-calls", "K2", "ALL combinations of a Value never written / constructed with an initial value / written once x a write whose expected check, before or after interceptor (11 option lists: masks, expected value, failing and passing checks, the callback switched off again) calls the same Value again x every list of up to 2 nested calls over 6 (writes of a new / the stored / the zero message, a failing write, a masked write, a read), followed by a Get; the same on a Collection (item absent / stored / stored as the empty message x 8 Update/Add and 5 Delete option lists - Delete's expected check makes the calls - x every list of up to 2 nested calls over 8); compared per call as above plus what the nested calls returned; distinct = distinct scripts"),
-		mon:   res.Monitor("reference-map", "every call of every tie run is checked against a plain Go register/map oracle (fieldwise merge) and the property's clauses: failed call => contents and clock-free state unchanged and no bus event; List = sorted filtered contents; generated id non-empty, unused, reported once, usable"),
+		mon:   res.Monitor("reference-map", "every call of every tie run is checked against a plain Go register/map oracle (fieldwise merge) and the property's clauses: failed call => contents and clock-free state unchanged and no bus event; List = sorted filtered contents; generated id non-empty, unused, reported once, usable; plus ALL (Value | Collection item, first message, second call: Get / Set / masked Set / Set or Delete with an expected value / Delete with a check) over OpenClosePosition messages whose float32 fields hold NaN, -0, +Inf, -Inf, 0, 1.5, against a register / map reference on the floats' bits (no write of the only caller is Aborted; proto.Equal reflexive on every such message)"),
 	}
 	r := lib.NewRand(f.Seed)
 	h.smallScope(f.N(3, 4))
@@ -50,6 +50,7 @@ func main() {
 	h.pathScope(f.N(3, 4))
 	h.resScope(f.N(3, 4))
 	h.nestedScope()
+	h.floatScope()
 	// the defect witnesses first (small, fixed), then random
 	for _, s := range fixedScripts() {
 		h.runScript(s, h.tieFor(s))
@@ -904,6 +905,14 @@ func replay(f lib.Flags) int {
 			lib.Fatal(err)
 		}
 		return replayPaths(c)
+	}
+	if ok && in["floats"] != nil {
+		b, _ := json.Marshal(in["floats"])
+		var c FloatCase
+		if err := json.Unmarshal(b, &c); err != nil {
+			lib.Fatal(err)
+		}
+		return replayFloats(c)
 	}
 	if !ok || in["script"] == nil {
 		fmt.Println("replay: no concrete input in file (", rp.Kind, rp.Broken, ")")
